@@ -132,6 +132,14 @@ func (w *World) parserModel() *parserModel {
 // isRegistryCall: a dynamic call of a function value taken from one of the
 // parser's registries (prefix() / infix(left)).
 func (m *parserModel) isRegistryCall(c *ast.CallExpr) bool {
+	// the callee must be a local variable of function type (prefix := p.prefixParseFns[...]; prefix())
+	id, isIdent := unparen(c.Fun).(*ast.Ident)
+	if !isIdent {
+		return false
+	}
+	if v, isVar := m.info.Uses[id].(*types.Var); !isVar || v.IsField() {
+		return false
+	}
 	tv, ok := m.info.Types[c.Fun]
 	if !ok {
 		return false
